@@ -30,8 +30,8 @@ META = {
                   "repository's verifying multihash). Ideal cryptography in the model; real nmt/rsmt2d in the replay. "
                   "Byte-level tampering is structured (cuts, appended units, single bit flips) and seeded, not "
                   "exhaustive. 'Not found stays not found' is demanded of the shrex getter only when every answer was "
-                  "NOT_FOUND. Per-attempt time-outs while the caller still waits need a one-minute wait in the real "
-                  "code and are explored in the model only. Cascade cases need a real clock (split deadlines): their "
+                  "NOT_FOUND. Per-attempt time-outs while the caller still waits are replayed with the getter's "
+                  "one-minute floor lowered through a verif-tagged setter (a seeded sample of those behaviours). Cascade cases need a real clock (split deadlines): their "
                   "outcome is judged by the safety oracle; a small share of them may miss trace matching because of "
                   "timing and is reported as a note. Range requests are single-namespace ranges (the server refuses "
                   "and the verifier rejects others).",
@@ -55,7 +55,7 @@ def run(ctx):
 
     # ---- 1. exhaustive model checking of the specification as the code is now
     exhaustive = ["MC_quick_direct", "MC_quick_cascade", "MC_quick_samples2"] if quick else \
-                 ["MC_thorough_single", "MC_thorough_samples2"]
+                 ["MC_thorough_single", "MC_thorough_samples2", "MC_thorough_samples2c"]
     for cfg in exhaustive:
         r = _tlc_ok(ctx, cfg, coverage=not quick)
         if not quick and r.ok:
@@ -91,10 +91,22 @@ def run(ctx):
             # cascades need a real clock (about a second each): a seeded sample
             rng.shuffle(cs)
             cs = cs[:160 if quick else 1200]
+        elif not quick and len(cs) > 12000:
+            rng.shuffle(cs)
+            cs = cs[:12000]
         cases += cs
+    # behaviours in which a single attempt times out while the caller still waits (about 1-3 s each)
+    r = _tlc_ok(ctx, "MC_cases_timeouts", count=False)
+    tos = [c for c in r.printed.get("CASE", []) if c.get("usedTimeout")]
+    if not tos:
+        ctx.inconclusive("no behaviours with a per-attempt time-out printed")
+    rng.shuffle(tos)
+    tos = tos[:40 if quick else 400]
+    ctx.cover(behaviours_with_attempt_timeout=len(tos))
     if quick and len(cases) > 3200:
         rng.shuffle(cases)
         cases = cases[:3200]
+    cases += tos
     cases_path = os.path.join(ctx.work, "cases.json")
     json.dump(cases, open(cases_path, "w"))
     ctx.cover(behaviours_replayed=len(cases))
